@@ -75,7 +75,8 @@ class C04:
                 "sample_seed": env.getrandbits(32)}
         if kind == "edits":
             n = sc.choice([0, sc.randint(1, 10), sc.randint(5, 60), sc.randint(30, 300)])
-            base.update(wl=sched.gen_workload(w), opw=sched.gen_opw(sc), schedule=sched.gen_schedule(sc, n),
+            scale = 2 if (tier == "thorough" and w.random() < 0.5) else 1
+            base.update(wl=sched.gen_workload(w, scale=scale), opw=sched.gen_opw(sc), schedule=sched.gen_schedule(sc, n),
                         quiet0=env.random() < 0.4, clock=env.choice(["frozen", "1ms", "3s"]))
             return base
         if kind == "matcher":
